@@ -6,6 +6,8 @@
 EXTENDS TypeGraph, Tables, TLC, Json, SequencesExt
 CONSTANTS NTypes, Level
 I == INSTANCE Graph WITH LookupInOwnTypeTable <- TRUE        \* the pinned tree's recursion check
+CONSTANT DropRequiredAtCut
+X == INSTANCE ExBuild
 R(n, v) == [n |-> n, v |-> v]
 BV(b) == [t |-> "bool", bv |-> b]
 TRef(s) == [t |-> "tref", s |-> s]
@@ -64,6 +66,9 @@ Emit == PrintT("@@CASE " \o ToJson([schema |-> root, env |-> Env, want |-> Want,
                                    pred_star_rejects |-> I!ImplRejectsRecursion(Env, root, FALSE),
                                    pred_mesh_rejects |-> I!ImplRejectsRecursion(Env, root, TRUE),
                                    pred_1303 |-> I!Pred1303(Env, root)]))
+\* the example builder (I layer, ExBuild) yields, on every accepted graph, a value the requirement accepts
+ExampleValid == (Level \in {1, 2, 3} /\ GraphVerdict(Env, root) = "accept") =>
+                  LET ex == X!Example(Env, root) IN ex # X!NIL /\ Verdict(Env, root, ex, FALSE) = "accept"
 \* under the mesh protocol the implementation-shaped search agrees with the requirement (where that is specified)
 MeshModelAgrees == (GraphVerdict(Env, root) \in {"accept", "reject"}) =>
                      ((I!ImplRejectsRecursion(Env, root, TRUE) \/ I!Pred1303(Env, root)) <=> (GraphVerdict(Env, root) = "reject" \/ I!Pred1303(Env, root)))
